@@ -5,7 +5,7 @@ from vlib.common import Outcome, Violation
 from vlib import tsim
 
 PROPERTY = "C13"
-RULE = ("threads 1-3 x worker_connections 1-5 x keepalive {0,1,2} x schedule of up to 40 events {client connects, client sends a full "
+RULE = ("threads 1-3 x worker_connections {1-5 | 8-12} x keepalive {0,1,2} x schedule of up to 40 events {client connects, client sends a full "
         "keep-alive request / a Connection: close request / a partial request / the rest of it / two pipelined requests, a queued handler "
         "runs to completion after 0-2.5 s of application time, virtual time +0.5/+1/+3 s, client disconnects, worker told to stop}, one event per yield point "
         "(poller.select / futures.wait) of the real ThreadWorker.run() driven with a scripted poller, listener, sockets and executor; "
@@ -32,6 +32,7 @@ event = st.one_of(
     st.tuples(st.just("handler"), st.integers(0, 3)),
     st.tuples(st.just("handler"), st.integers(0, 3), st.sampled_from([0, 0.5, 1.5, 2.5])),      # the application takes this long
     st.tuples(st.just("handler_late_data"), st.integers(0, 3)),
+    st.tuples(st.just("eager")),       # the next submitted job is finished by a pool thread before submit() returns to the loop
     st.tuples(st.just("time"), st.sampled_from([0.5, 1.0, 3.0])),
     st.tuples(st.just("disconnect"), st.integers(0, 5)),
 )
@@ -47,18 +48,26 @@ scene = st.one_of(
     st.tuples(st.integers(0, 5)).map(lambda t: [["connect"], ["connect"], ["time", 0.5], ["send_ka", t[0]], ["send_ka", t[0] + 1],
                                                 ["handler", 0], ["handler", 0], ["time", 1.0]]),
     st.tuples(st.integers(0, 5)).map(lambda t: [["disconnect", t[0]], ["time", 0.5]]),
+    st.tuples(st.integers(0, 5), st.sampled_from(["send_ka", "send_close"])).map(
+        lambda t: [["connect"], ["time", 0.5], ["eager"], [t[1], t[0]], ["time", 0.5], ["time", 0.5]]),
     st.lists(event, min_size=1, max_size=4).map(lambda l: [list(e) for e in l]),
 )
 
 
 def strategy(tier):
-    scenes = st.lists(scene, min_size=1, max_size=7).map(lambda ls: [e for l in ls for e in l][:60])
+    # every history starts with a client that connects and sends something (a third of the generated histories used to contain no
+    # connection at all), and two thirds of them have more connection slots than clients: the open finding "the loop stops polling
+    # client sockets at capacity" otherwise swallows whatever comes after it in the history
+    opening = st.tuples(st.sampled_from(["send_ka", "send_ka", "send_close", "send_two", "send_partial"]), st.booleans()).map(
+        lambda t: [["connect"], ["time", 0.5], [t[0], 0]] + ([["eager"]] if t[1] else []))
+    scenes = st.tuples(opening, st.lists(scene, min_size=1, max_size=7)).map(lambda t: (t[0] + [e for l in t[1] for e in l])[:60])
+    raw = st.lists(event, min_size=1, max_size=40).map(lambda l: [["connect"]] + [list(e) for e in l])
     return st.fixed_dictionaries({
         "threads": st.integers(1, 3),
-        "worker_connections": st.integers(1, 5),
+        "worker_connections": st.one_of(st.integers(1, 5), st.integers(8, 12), st.integers(8, 12)),
         "keepalive": st.sampled_from([0, 1, 2, 2]),
-        "events": st.one_of(scenes, scenes, st.lists(event, min_size=1, max_size=40).map(lambda l: [list(e) for e in l])),
-        "stop_at": st.one_of(st.none(), st.none(), st.integers(0, 40)),
+        "events": st.one_of(scenes, scenes, raw),
+        "stop_at": st.one_of(st.none(), st.none(), st.integers(2, 40)),
     })
 
 
